@@ -290,9 +290,12 @@ fn gen_source(rng: &mut Rng, base: Option<&IpAddr>, v4: u8, v6: u8) -> IpAddr {
                 _ => rng.below(32) as u32,
             };
             let flipped = Ipv4Addr::from(u32::from(*a) ^ (1u32 << (31 - bit.min(31))));
-            match rng.below(4) {
+            match rng.below(6) {
                 0 => IpAddr::V6(flipped.to_ipv6_mapped()),
                 1 => IpAddr::V6(a.to_ipv6_mapped()),
+                // "IPv4-compatible" ::a.b.c.d is NOT IPv4-mapped: it is an IPv6 source in ::/96
+                2 => IpAddr::V6(Ipv6Addr::from(u32::from(*a) as u128)),
+                3 => IpAddr::V6(Ipv6Addr::from(u32::from(flipped) as u128)),
                 _ => IpAddr::V4(flipped),
             }
         }
@@ -307,7 +310,10 @@ fn gen_source(rng: &mut Rng, base: Option<&IpAddr>, v4: u8, v6: u8) -> IpAddr {
         }
         Some(b) if rng.chance(1, 2) => *b,
         _ => {
-            if rng.bool() {
+            if rng.chance(1, 8) {
+                // an IPv6 source in ::/96 (IPv4-compatible form, not IPv4-mapped)
+                IpAddr::V6(Ipv6Addr::new(0, 0, 0, 0, 0, 0, 0x0a00 | rng.below(2) as u16, (rng.below(2) as u16) << 8 | rng.below(4) as u16))
+            } else if rng.bool() {
                 IpAddr::V4(Ipv4Addr::new(10, rng.below(2) as u8, rng.below(2) as u8, rng.below(4) as u8))
             } else {
                 IpAddr::V6(Ipv6Addr::new(0x2001, 0xdb8, rng.below(2) as u16, rng.below(2) as u16 * 0x100, 0, 0, 0, rng.below(3) as u16))
